@@ -10,6 +10,7 @@
     This table is maintained by hand. *)
 From Coq Require Import NArith Bool String List.
 From Imdl Require Import Model.Crash Proofs.CrashProofs Generated.GenPanicSites.
+From Imdl Require Proofs.ByteSizeProofs.
 Import ListNotations.
 Local Open Scope string_scope.
 
@@ -35,7 +36,9 @@ Definition classification : list (string * string * string * string * N * reason
     ("src/bytes.rs", "Bytes as Display::fmt", "index", "DISPLAY_SUFFIXES[i - 1]", 1%N, Guarded _ display_guard "a u64 is below 1024^7, so 1 <= i <= 6 in the else branch; modelled by bytes_display");
     ("src/bytes.rs", "Bytes::absolute_difference", "arith", "self - other", 1%N, Argued "not on an input path of show/link/verify/dump/stats or of an argument parser: used by create (piece-length picker, lints) with operands from the walked files, properties C14/C15");
     ("src/bytes.rs", "Bytes::absolute_difference", "arith", "other - self", 1%N, Argued "not on an input path of show/link/verify/dump/stats or of an argument parser: used by create (piece-length picker, lints) with operands from the walked files, properties C14/C15");
-    ("src/bytes.rs", "Bytes as FromStr::from_str", "arith", "Ok(Bytes(float_to_int(value * int_to_float(multiple))))", 1%N, Argued "f64 multiplication never panics; the float-to-int cast saturates");
+    ("src/bytes.rs", "Bytes as FromStr::from_str", "arith", "partial = (u128::from(digit) * multiple + partial) / 10;", 1%N, Guarded _ ByteSizeProofs.parse_total "digit <= 9, multiple <= 2^60 and partial <= multiple, so neither the product nor the sum leaves u128, and the divisor is the literal 10; modelled by ByteSize.frac_step with checked operators (chk128), C16 theorem parse_total: no text makes bs_parse panic");
+    ("src/bytes.rs", "Bytes as FromStr::from_str", "arith", "partial = (u128::from(digit) * multiple + partial) / 10;", 2%N, Guarded _ ByteSizeProofs.parse_total "digit <= 9, multiple <= 2^60 and partial <= multiple, so neither the product nor the sum leaves u128, and the divisor is the literal 10; modelled by ByteSize.frac_step with checked operators (chk128), C16 theorem parse_total: no text makes bs_parse panic");
+    ("src/bytes.rs", "Bytes as FromStr::from_str", "arith", "partial = (u128::from(digit) * multiple + partial) / 10;", 3%N, Guarded _ ByteSizeProofs.parse_total "digit <= 9, multiple <= 2^60 and partial <= multiple, so neither the product nor the sum leaves u128, and the divisor is the literal 10; modelled by ByteSize.frac_step with checked operators (chk128), C16 theorem parse_total: no text makes bs_parse panic");
     ("src/bytes.rs", "Bytes as Div::div", "arith", "self.0 / rhs.0", 1%N, Argued "not on an input path of show/link/verify/dump/stats or of an argument parser: used by create (piece-length picker, lints) with operands from the walked files, properties C14/C15");
     ("src/bytes.rs", "Bytes as Sub::sub", "arith", "Bytes(self.count() - rhs.count())", 1%N, Argued "not on an input path of show/link/verify/dump/stats or of an argument parser: used by create (piece-length picker, lints) with operands from the walked files, properties C14/C15");
     ("src/bytes.rs", "Bytes as Div::div", "arith", "Bytes::from(self.0 / rhs)", 1%N, Argued "not on an input path of show/link/verify/dump/stats or of an argument parser: used by create (piece-length picker, lints) with operands from the walked files, properties C14/C15");
@@ -48,6 +51,15 @@ Definition classification : list (string * string * string * string * N * reason
     ("src/bytes.rs", "Bytes as Display::fmt", "arith", "value /= 1024.0;", 1%N, Argued "f64 division never panics");
     ("src/bytes.rs", "Bytes as Display::fmt", "arith", "i += 1;", 1%N, Guarded _ suffix_index_le "loop counter: at most 6 iterations for a u64");
     ("src/bytes.rs", "Bytes as Display::fmt", "arith", "DISPLAY_SUFFIXES[i - 1]", 1%N, Guarded _ display_guard "a u64 is below 1024^7, so 1 <= i <= 6 in the else branch; modelled by bytes_display");
+    ("src/bytes.rs", "Bytes as Display::fmt", "arith", "let scaled = 100 * u128::from(self.0);", 1%N, Guarded _ ByteSizeProofs.display_eq "for a u64 value 100 n < 2^71, the unit is 1024^i with i <= 6 (never 0, the saturating product never saturates), twice the remainder is below 2^61 and quotient + 1 <= 100 n + 1: no u128 operator overflows or divides by zero; modelled by ByteSize.hundredths with checked operators (chk128, unit = 0), C16 theorem display_eq: bs_display n is Some text for every n < 2^64");
+    ("src/bytes.rs", "Bytes as Display::fmt", "arith", "let quotient = scaled / unit;", 1%N, Guarded _ ByteSizeProofs.display_eq "for a u64 value 100 n < 2^71, the unit is 1024^i with i <= 6 (never 0, the saturating product never saturates), twice the remainder is below 2^61 and quotient + 1 <= 100 n + 1: no u128 operator overflows or divides by zero; modelled by ByteSize.hundredths with checked operators (chk128, unit = 0), C16 theorem display_eq: bs_display n is Some text for every n < 2^64");
+    ("src/bytes.rs", "Bytes as Display::fmt", "arith", "let hundredths = match (2 * (scaled % unit)).cmp(&unit) {", 1%N, Guarded _ ByteSizeProofs.display_eq "for a u64 value 100 n < 2^71, the unit is 1024^i with i <= 6 (never 0, the saturating product never saturates), twice the remainder is below 2^61 and quotient + 1 <= 100 n + 1: no u128 operator overflows or divides by zero; modelled by ByteSize.hundredths with checked operators (chk128, unit = 0), C16 theorem display_eq: bs_display n is Some text for every n < 2^64");
+    ("src/bytes.rs", "Bytes as Display::fmt", "arith", "let hundredths = match (2 * (scaled % unit)).cmp(&unit) {", 2%N, Guarded _ ByteSizeProofs.display_eq "for a u64 value 100 n < 2^71, the unit is 1024^i with i <= 6 (never 0, the saturating product never saturates), twice the remainder is below 2^61 and quotient + 1 <= 100 n + 1: no u128 operator overflows or divides by zero; modelled by ByteSize.hundredths with checked operators (chk128, unit = 0), C16 theorem display_eq: bs_display n is Some text for every n < 2^64");
+    ("src/bytes.rs", "Bytes as Display::fmt", "arith", "Ordering::Equal => quotient + quotient % 2,", 1%N, Guarded _ ByteSizeProofs.display_eq "for a u64 value 100 n < 2^71, the unit is 1024^i with i <= 6 (never 0, the saturating product never saturates), twice the remainder is below 2^61 and quotient + 1 <= 100 n + 1: no u128 operator overflows or divides by zero; modelled by ByteSize.hundredths with checked operators (chk128, unit = 0), C16 theorem display_eq: bs_display n is Some text for every n < 2^64");
+    ("src/bytes.rs", "Bytes as Display::fmt", "arith", "Ordering::Equal => quotient + quotient % 2,", 2%N, Guarded _ ByteSizeProofs.display_eq "for a u64 value 100 n < 2^71, the unit is 1024^i with i <= 6 (never 0, the saturating product never saturates), twice the remainder is below 2^61 and quotient + 1 <= 100 n + 1: no u128 operator overflows or divides by zero; modelled by ByteSize.hundredths with checked operators (chk128, unit = 0), C16 theorem display_eq: bs_display n is Some text for every n < 2^64");
+    ("src/bytes.rs", "Bytes as Display::fmt", "arith", "Ordering::Greater => quotient + 1,", 1%N, Guarded _ ByteSizeProofs.display_eq "for a u64 value 100 n < 2^71, the unit is 1024^i with i <= 6 (never 0, the saturating product never saturates), twice the remainder is below 2^61 and quotient + 1 <= 100 n + 1: no u128 operator overflows or divides by zero; modelled by ByteSize.hundredths with checked operators (chk128, unit = 0), C16 theorem display_eq: bs_display n is Some text for every n < 2^64");
+    ("src/bytes.rs", "Bytes as Display::fmt", "arith", "let formatted = format!(""{}.{:02}"", hundredths / 100, hundredths % 100);", 1%N, Argued "quotient and remainder by the non-zero literal 100 never panic");
+    ("src/bytes.rs", "Bytes as Display::fmt", "arith", "let formatted = format!(""{}.{:02}"", hundredths / 100, hundredths % 100);", 2%N, Argued "quotient and remainder by the non-zero literal 100 never panic");
     ("src/piece_list.rs", "PieceList as Deserialize::deserialize", "invariant", "chunk .try_into() .invariant_unwrap(""chunks are all Sha1Digest::LENGTH""),", 1%N, Guarded _ pieces_guard "chunks_exact(20) yields 20-byte chunks; modelled by de_pieces");
     ("src/piece_list.rs", "PieceList as Deserialize::deserialize", "api", "let piece_hashes = bytes .chunks_exact(Sha1Digest::LENGTH)", 1%N, Argued "chunks_exact with the constant Sha1Digest::LENGTH = 20, never zero");
     ("src/piece_list.rs", "PieceList as Serialize::serialize", "arith", "let mut bytes = Vec::with_capacity(self.piece_hashes.len() * sha1::DIGEST_LENGTH);", 1%N, Argued "not on an input path (serialisation in create / from-link); len * 20 is the byte size of an existing Vec of 20-byte digests");
@@ -86,5 +98,5 @@ Proof. vm_compute. reflexivity. Qed.
 Lemma inventory_translated : GenPanicSites.translated = true /\ length anchored_files = 20%nat.
 Proof. split; reflexivity. Qed.
 
-Lemma guarded_count : length (filter (fun e => is_guarded (snd e)) classification) = 18%nat.
+Lemma guarded_count : length (filter (fun e => is_guarded (snd e)) classification) = 28%nat.
 Proof. vm_compute. reflexivity. Qed.
